@@ -265,11 +265,12 @@ def _check_tgzc(case):
         spec.append(("q", "P", [(t / RATE, "Q%d" % i) for i, t in enumerate(pts2)]))
     if ivs2 is not None:
         spec.append(("v", "I", [(a / RATE, b / RATE, "cd"[i]) for i, (a, b) in enumerate(ivs2)]))
-    tg = Textgrid(0, n / RATE)
+    end = (case[5] if len(case) > 5 else n) / RATE     # the annotation may stop before the recording does
+    tg = Textgrid(0, end)
     for nm, kind, E in spec:
-        tg.addTier((IT if kind == "I" else PT)(nm, E, 0, n / RATE))
+        tg.addTier((IT if kind == "I" else PT)(nm, E, 0, end))
     st, r, _ = guarded(praatio_scripts.tgBoundariesToZeroCrossings, tg.new(), w, adjP, adjI)
-    tag = f"tgBoundariesToZeroCrossings tiers={[(nm, [tuple(e) for e in E]) for nm, _, E in spec]} adjustPointTiers={adjP} adjustIntervalTiers={adjI}"
+    tag = f"tgBoundariesToZeroCrossings (textgrid 0..{end}, recording 0..{n / RATE}) tiers={[(nm, [tuple(e) for e in E]) for nm, _, E in spec]} adjustPointTiers={adjP} adjustIntervalTiers={adjI}"
     if st == "hang":
         return 1, "hang", None, [Viol("non-termination", tag)]
     if st == "exc":
@@ -402,6 +403,13 @@ def parts(tier):
                     for pts2 in ((), (16,), (8, 24)):
                         for adjP, adjI in ((True, True), (False, True), (True, False)):
                             yield (ivs, pts, adjP, adjI, (ivs2, pts2))
+
+        # an annotation that stops before the recording does (sample 11 of 32; the crossing nearest to its last boundary is sample 12, beyond it)
+        for end in (11, 10, 27):
+            for ivs in (((0, end),), ((8, end),), ((0, 8), (8, end))):
+                for pts in ((), (end,), (end - 1,)):
+                    for adjP, adjI in ((True, True), (False, True), (True, False)):
+                        yield (ivs, pts, adjP, adjI, (None, None), end)
 
     def gen_splice():
         for ivs in D.interval_sets(SP_GRID, 2):
